@@ -67,11 +67,24 @@ pub fn check_one(ctx: &mut Ctx, family: &str, idx: u64, p: &PktM) {
     let k = [1usize, 2, 7, 300][(idx % 4) as usize];
     let streamed = crate::monitor::guard(|| {
         let lib = crate::bridge::to_lib(p).map_err(|e| e.to_string())?;
-        if (idx / 4) % 2 == 0 {
+        if (idx / 4) % 3 == 0 {
             let mut cur = std::io::Cursor::new(vec![0xEEu8; k]);
             cur.set_position(k as u64);
             lib.write_compressed_to(&mut cur).map_err(|e| format!("{:?}", e))?;
             Ok::<Vec<u8>, String>(cur.into_inner())
+        } else if (idx / 4) % 3 == 1 {
+            // a stream that already holds data beyond the place where the message goes (a reused buffer, a file opened
+            // without truncation): the message is what lies between the start and the final stream position
+            let mut cur = std::io::Cursor::new(vec![0xEEu8; k + plain.len() + 40]);
+            cur.set_position(k as u64);
+            lib.write_compressed_to(&mut cur).map_err(|e| format!("{:?}", e))?;
+            let end = cur.position() as usize;
+            let mut all = cur.into_inner();
+            if all[end.min(all.len())..].iter().any(|b| *b != 0xEE) {
+                return Err("bytes after the final stream position were changed".into());
+            }
+            all.truncate(end);
+            Ok::<Vec<u8>, String>(all)
         } else {
             // the same through a writer that takes at most 3 bytes per call and is interrupted now and then
             let mut w = super::c04::ShortWriter { buf: vec![0xEEu8; k], pos: k, calls: 0 };
